@@ -149,6 +149,13 @@ def r1_scp_read(program, folder, rep):
     a1, a2 = b.get("arg1"), b.get("arg2")
     if a1 is None or a2 is None:
         raise AnalysisError("read scpcall without arg1/arg2")
+    if any(isinstance(x, ast.Subscript) and chain(x.value) == rem or
+           isinstance(x, ast.Call) and call_name(x)[0] == "len" and x.args and
+           chain(x.args[0]) == rem for x in ast.walk(fn)):
+        raise AnalysisError("SCPConnection.read.packets: what remains to be "
+                            "requested is kept as a shrinking view, not as a "
+                            "byte count; the tiling is not analysed in that "
+                            "form")
     R = Poly.atom(rem)
     it = Interp(fn, entry_cons=[le(0, R), le(1, Poly.atom("buffer_size"))],
                 candidates=[le(0, R)], consts=consts)
@@ -537,6 +544,18 @@ def r2_dtype(program, folder, rep, sites):
                 ok = (k0 == wa and k1 == wn) or (symmetric and k0 == wn and
                                                  k1 == wa)
                 detail = "(%r, %r)" % (k0, k1)
+        if not ok and not detail and a3 is not None:
+            # not a look-up in the table at all
+            fixed = isinstance(e, ast.Attribute) and (chain(e) or "").startswith(
+                "consts.DataType.") and e is not a3 or isinstance(
+                    a3, ast.Attribute) and (chain(a3) or "").startswith(
+                        "consts.DataType.")
+            if not fixed and not isinstance(e, ast.Constant):
+                rep.undecided(["C07-R2"], "%s: the access type of a command "
+                              "is not looked up in consts.address_length_"
+                              "dtype but computed some other way, which is "
+                              "not analysed" % inst)
+                continue
         rep.check(ok, "C07-R2", inst, "the access type is looked up with "
                   "(A % 4, N % 4) of the very address A and length N sent "
                   "in this command", construct="dtype key %s" % detail,
